@@ -33,6 +33,7 @@ const vrtPath = "github.com/hashicorp/hcl-lang/vrt"
 
 type stats struct {
 	MapSites, Yields, Probes, Unprobed int
+	SyncImported                       []string
 	UnprobedSites                      []string
 	Globals                            []string
 	Files                              int
@@ -517,6 +518,11 @@ func main() {
 		if len(p.Errors) > 0 {
 			fatal(fmt.Errorf("package %s: %v", p.PkgPath, p.Errors[0]))
 		}
+		for ip := range p.Imports {
+			if ip == "sync" || ip == "sync/atomic" {
+				st.SyncImported = append(st.SyncImported, p.PkgPath+" imports "+ip)
+			}
+		}
 		var globals []string
 		sc := p.Types.Scope()
 		for _, n := range sc.Names() {
@@ -561,13 +567,22 @@ func main() {
 		fmt.Fprintf(&b, "}\n}\n")
 		if p.PkgPath == "github.com/hashicorp/hcl-lang/decoder" {
 			fmt.Fprintf(&b, `
+// VerifInternalGlobals returns the package-level variables of decoder's internal packages.
+func VerifInternalGlobals() []any {
+	var out []any
+	out = append(out, schemahelper.VerifGlobals()...)
+	out = append(out, ast.VerifGlobals()...)
+	out = append(out, walker.VerifGlobals()...)
+	return out
+}
+
 // VerifMergeBlockBodySchemas exposes the derivation of a block's effective body schema.
 func VerifMergeBlockBodySchemas(block *hcl.Block, bs *schema.BlockSchema) (*schema.BodySchema, int) {
 	s, r := schemahelper.MergeBlockBodySchemas(block, bs)
 	return s, int(r)
 }
 `)
-			b2 := strings.Replace(b.String(), "package decoder\n", "package decoder\n\nimport (\n\t\"github.com/hashicorp/hcl-lang/decoder/internal/schemahelper\"\n\t\"github.com/hashicorp/hcl-lang/schema\"\n\t\"github.com/hashicorp/hcl/v2\"\n)\n", 1)
+			b2 := strings.Replace(b.String(), "package decoder\n", "package decoder\n\nimport (\n\t\"github.com/hashicorp/hcl-lang/decoder/internal/ast\"\n\t\"github.com/hashicorp/hcl-lang/decoder/internal/walker\"\n\t\"github.com/hashicorp/hcl-lang/decoder/internal/schemahelper\"\n\t\"github.com/hashicorp/hcl-lang/schema\"\n\t\"github.com/hashicorp/hcl/v2\"\n)\n", 1)
 			b.Reset()
 			b.WriteString(b2)
 		}
@@ -593,7 +608,7 @@ func VerifMergeBlockBodySchemas(block *hcl.Block, bs *schema.BlockSchema) (*sche
 	for _, s := range sites {
 		fmt.Fprintf(&sb, "\t%q,\n", s)
 	}
-	fmt.Fprintf(&sb, "}\n\n// Stats of the instrumentation run.\nconst (\n\tNumMapSites = %d\n\tNumYields = %d\n\tNumProbes = %d\n\tNumUnprobed = %d\n)\n", st.MapSites, st.Yields, st.Probes, st.Unprobed)
+	fmt.Fprintf(&sb, "}\n\n// Stats of the instrumentation run.\nconst (\n\tNumMapSites = %d\n\tNumYields = %d\n\tNumProbes = %d\n\tNumUnprobed = %d\n\tSyncImported = %v\n)\n", st.MapSites, st.Yields, st.Probes, st.Unprobed, len(st.SyncImported) > 0)
 	if err := os.WriteFile(filepath.Join(vdir, "sites.go"), sb.Bytes(), 0o644); err != nil {
 		fatal(err)
 	}
